@@ -61,7 +61,7 @@ func genC14Peer(t *simrt.Tape, id int, n int) []rawCmd {
 			c.Parts = cat("APPEND "+box+" ", rawPart{IsLit: true, Lit: []byte(sampleMessages[t.Choose(len(sampleMessages))]), Sync: t.Choose(2) == 0})
 			c.Name = "APPEND"
 		case 11:
-			add([]string{`LIST "" "*"`, `LIST "" "%" RETURN (STATUS (MESSAGES UNSEEN))`, `LSUB "" "*"`}[t.Choose(3)])
+			add([]string{`LIST "" "*"`, `LIST "" "%" RETURN (STATUS (MESSAGES UNSEEN))`, `LSUB "" "*"`, `LIST "" ""`, `LIST "" "Bra%"`, `LSUB "" ""`}[t.Choose(6)])
 		case 12:
 			add("STATUS " + box + " (MESSAGES UIDNEXT UNSEEN)")
 		case 13:
